@@ -43,7 +43,7 @@ def operations():
 
 def explore(run, tier):
     depth = 3 if tier == "thorough" else 2
-    seen = set()
+    seen = {}
     st = {"states": 0, "transitions": 0}
     ops = operations()
     initial = [{"init": s, "hist": []} for s in initial_states()]
@@ -57,11 +57,13 @@ def explore(run, tier):
         if key is None or not res.get("ok"):
             return
         k = (repr(sorted(point["init"].items())), key)
-        if k in seen:
-            return
-        seen.add(k)
-        st["states"] += 1
-        if len(point["hist"]) >= depth:
+        dep = len(point["hist"])
+        if k in seen and seen[k] <= dep:
+            return          # already expanded from the same or a shorter history
+        if k not in seen:
+            st["states"] += 1
+        seen[k] = dep
+        if dep >= depth:
             return
         for op in ops:
             # deeper levels of the quick tier use the uncompressed alphabet only
